@@ -189,9 +189,11 @@ def enc_opts(reverse=0, N=0, t=0, f=0, l=0, F=2, D=b"", nl="native", rf="default
 
 def render(lines, mode="native"):
     out = b""
-    for c, nl in lines:
+    for k, (c, nl) in enumerate(lines):
         out += c
         if nl == "N":
+            if k + 1 < len(lines):
+                out += b"\r\n" if mode == "crlf" else b"\n"      # only the last line of a file can be without its newline (D97)
             continue
         if mode in ("native", "lf"):
             out += b"\n"
